@@ -13,7 +13,11 @@ EXTENDS Integers, Sequences, FiniteSets, TLC, Json, IOUtils
 Obs == ndJsonDeserialize(IOEnv.OBS)
 
 ToSet(s) == {s[i] : i \in 1..Len(s)}
-Succ(o, n) == {e[2] : e \in {x \in ToSet(o.edges) : x[1] = n}}
+(* Sections whose name is a C identifier form a set delimited by the linker-defined symbols __start_X / __stop_X.
+   A reference to EITHER boundary symbol (setrefs: <<referencing node, set, "both" | "start" | "stop">>) from a
+   live section keeps EVERY section of that name in every input file (setmembers: <<set, node>>). *)
+SetSucc(o, n) == {m[2] : m \in {x \in ToSet(o.setmembers) : \E r \in ToSet(o.setrefs) : r[1] = n /\ r[2] = x[1]}}
+Succ(o, n) == {e[2] : e \in {x \in ToSet(o.edges) : x[1] = n}} \cup SetSucc(o, n)
 
 RECURSIVE ReachFrom(_, _)
 ReachFrom(o, S) ==
